@@ -239,7 +239,7 @@ PROPS = {
               ops=["Gen"], exhaustive=False),
     "C16": _p("exploration", ["features", "backends", "keyxfer", "cert-awslc"], ["C16."],
               "configuration enumeration: cargo check of rcgen for all 24 feature sets {ring | aws_lc_rs | none} x {pem} x {x509-parser} x {zeroize} plus the CLI with either back end (coverage predicate featureSets=24 evaluated by TLC); the purity sessions/threads/processes run under the ring, aws-lc-rs and crypto-less builds of the harness with the same key files and their to-be-signed digests compared through the specification's write-once registers (coverage genBackends=3); keys exported by each back end loaded by the other through four entry points; the MC_Cert case set issued under aws-lc-rs and verified by ring and OpenSSL; distinct by event arguments",
-              ops=["Build", "Gen", "KeyXfer", "Cert"], exhaustive=False),
+              ops=["Build", "Gen", "KeyXfer", "KeyFile", "Cert"], exhaustive=False),
     "C17": _p("model_checking", ["import"], ["C17."],
               "every self-signed case of MC_Cert.Cases (presence product sampled 1:3 in quick, all value sweeps: 512 key-usage sets, path lengths 0..255, prefixes 0..255, SAN / subtree / DN-kind variants, key-id methods, serial classes) is generated, imported through DER and PEM, and re-issued from the imported parameters with the same key; plus OpenSSL-generated CAs over MC_Import.Cases",
               ops=["ImportCa"], exhaustive=True),
